@@ -35,7 +35,8 @@ CONSTANTS Props,       \* proposals of the slot, e.g. {"A", "A2", "B"}
           KThr,        \* threshold
           MaxDup,      \* how many re-deliveries of already delivered messages
           MaxLen,      \* bound on the number of handler calls explored
-          MaxTimeouts  \* bound on the number of expiries in a sequence
+          MaxTimeouts, \* bound on the number of expiries in a sequence
+          MaxForged    \* distinct forgeries per block hash (under the id of the smallest other member)
 
 Self == 1
 None == "none"
@@ -46,11 +47,14 @@ HashOf(p) == "h" \o p
 Hashes == {HashOf(p) : p \in Props}
 PropOfHash(h) == CHOOSE p \in Props : HashOf(p) = h
 
-Cast(p)          == [type |-> "cast", prop |-> p, filed |-> HashOf(p), signed |-> HashOf(p), sender |-> 0]
-Verify(h, s)     == [type |-> "verify", prop |-> PropOfHash(h), filed |-> h, signed |-> h, sender |-> s]
-Own(p)           == [type |-> "own", prop |-> p, filed |-> HashOf(p), signed |-> HashOf(p), sender |-> Self]
-WrongBlock(h, g, s) == [type |-> "wrongBlock", prop |-> PropOfHash(h), filed |-> h, signed |-> g, sender |-> s]
-Expire           == [type |-> "timeout", prop |-> None, filed |-> None, signed |-> None, sender |-> 0]
+Cast(p)          == [type |-> "cast", prop |-> p, filed |-> HashOf(p), signed |-> HashOf(p), sender |-> 0, v |-> 0]
+Verify(h, s)     == [type |-> "verify", prop |-> PropOfHash(h), filed |-> h, signed |-> h, sender |-> s, v |-> 0]
+Own(p)           == [type |-> "own", prop |-> p, filed |-> HashOf(p), signed |-> HashOf(p), sender |-> Self, v |-> 0]
+WrongBlock(h, g, s) == [type |-> "wrongBlock", prop |-> PropOfHash(h), filed |-> h, signed |-> g, sender |-> s, v |-> 0]
+(* a faulty member files a message under the id of member s: the claimed signer is s, the shares are
+   not s's (v numbers distinct forgeries) *)
+Forged(h, s, v)  == [type |-> "forged", prop |-> PropOfHash(h), filed |-> h, signed |-> h, sender |-> s, v |-> v]
+Expire           == [type |-> "timeout", prop |-> None, filed |-> None, signed |-> None, sender |-> 0, v |-> 0]
 
 VARIABLES parties,    \* live parties: block hash -> [shares : set of senders]  (all live parties are in round 1)
           finished,   \* keys in the finished-party cache (proposal keys and block hashes)
@@ -66,7 +70,9 @@ Init == /\ parties = <<>> /\ finished = {} /\ buffered = [h \in Hashes |-> <<>>]
 Live(h) == h \in DOMAIN parties
 
 (* share counting of round 1 for a party of block h (C15's rule) *)
-Counts(shares, h, m) == m.signed = h /\ m.sender \notin shares /\ Cardinality(shares) < KThr
+Counts(shares, h, m) == /\ m.type \in {"verify", "own"}       \* the share is the claimed signer's valid share ...
+                        /\ m.signed = h                     \* ... for this party's block
+                        /\ m.sender \notin shares /\ Cardinality(shares) < KThr
 
 RECURSIVE Feed(_, _, _)
 Feed(shares, h, msgs) ==
@@ -123,6 +129,7 @@ OnVerify(m) == Handle(m)
 OnTimeout == DOMAIN parties # {} /\ Handle(Expire)
 
 MaxOther == CHOOSE x \in Others : \A y \in Others : x >= y
+MinOther == CHOOSE x \in Others : \A y \in Others : x <= y
 Delivered(m) == \E i \in 1..Len(hist) : hist[i] = m
 Dups == Len(hist) - Cardinality({hist[i] : i \in 1..Len(hist)})
 MayDeliver(m) == ~Delivered(m) \/ Dups < MaxDup
@@ -137,6 +144,8 @@ Next ==
      \/ \E h \in MainHashes, g \in MainHashes, s \in Others :
            h # g /\ s = MaxOther
            /\ MayDeliver(WrongBlock(h, g, s)) /\ OnVerify(WrongBlock(h, g, s))
+     \/ \E h \in MainHashes, v \in 1..MaxForged :
+           MayDeliver(Forged(h, MinOther, v)) /\ OnVerify(Forged(h, MinOther, v))
      \/ (Cardinality({i \in 1..Len(hist) : hist[i] = Expire}) < MaxTimeouts /\ OnTimeout)
 
 Spec == Init /\ [][Next]_vars
@@ -154,7 +163,7 @@ OneBlockPerProposalKey ==
 (* only shares that sign the party's block are counted (C15's clause, on this path) *)
 OnlySharesForTheBlock ==
   \A h \in DOMAIN parties : \A s \in parties[h] :
-     \E i \in 1..Len(hist) : hist[i].filed = h /\ hist[i].signed = h /\ hist[i].sender = s
+     \E i \in 1..Len(hist) : hist[i].type \in {"verify", "own"} /\ hist[i].filed = h /\ hist[i].signed = h /\ hist[i].sender = s
 (* shares that arrived before the proposal count: if the proposal was admitted, the party did not
    time out, and KThr distinct members' valid shares for it were delivered at any time, it finalised *)
 Admitted(p) == \E i \in 1..Len(hist) : hist[i] = Cast(p) /\ \A j \in 1..(i - 1) : hist[j].type = "cast" => KeyOf(hist[j].prop) # KeyOf(p)
@@ -170,6 +179,10 @@ SendersBeforeTimeout(h) ==
       hist[j].type \in {"verify", "own"} /\ hist[j].filed = h /\ hist[j].signed = h}}
 LateSharesCount ==
   \A p \in Props : (Admitted(p) /\ Cardinality(SendersBeforeTimeout(HashOf(p))) >= KThr) => HashOf(p) \in Range(added)
+(* C15's third clause on this path: messages of a faulty member (shares over another block, messages
+   filed under an honest member's id) are in the sequence, and still LateSharesCount holds *)
+FaultyPresent == \E i \in 1..Len(hist) : hist[i].type \in {"forged", "wrongBlock"}
+
 (* NOT given by the design: one finalised block per slot (two proposals of the same castor with
    different keys are both signed and both finalised) *)
 OneFinalisationPerSlot == Len(added) <= 1
